@@ -19,5 +19,19 @@ while IFS=$'\t' read -r prop file expr expect; do
   verdict=equivalent; [ $rc -eq 1 ] && verdict=caught; [ $rc -ge 2 ] && verdict=fault
   if [ "$verdict" = "$expect" ]; then ok=$((ok+1)); echo "ok   $prop $verdict: $expr"; else bad=$((bad+1)); echo "BAD  $prop expected=$expect got=$verdict: $file $expr"; fi
 done < mutants/corpus.tsv
+for pf in mutants/patches/*.diff; do
+  [ -f "$pf" ] || continue
+  prop=$(sed -n 's/^# prop: //p' "$pf"); expect=$(sed -n 's/^# expect: //p' "$pf")
+  [ -n "$filter" ] && [ "$prop" != "$filter" ] && continue
+  d=$(mktemp -d /tmp/mutc.XXXXXX)
+  rsync -a --exclude .git /repo/ "$d/"
+  if ! (cd $d && grep -v '^# ' /verif/$pf | patch -p1 -s >/dev/null 2>&1); then echo "NOT-APPLIED $pf"; bad=$((bad+1)); rm -rf $d; continue; fi
+  if ! (cd $d && GOFLAGS=-mod=mod GOPROXY=off go build ./... >/dev/null 2>&1); then echo "NO-BUILD $pf"; bad=$((bad+1)); rm -rf $d; continue; fi
+  GOVC_NOREPLAY=1 ./bin/govc check -prop "$prop" -repo "$d" -verif /verif -no-evidence -out "$d/out" >/dev/null 2>&1
+  rc=$?
+  rm -rf "$d"
+  verdict=equivalent; [ $rc -eq 1 ] && verdict=caught; [ $rc -ge 2 ] && verdict=fault
+  if [ "$verdict" = "$expect" ]; then ok=$((ok+1)); echo "ok   $prop $verdict: $pf"; else bad=$((bad+1)); echo "BAD  $prop expected=$expect got=$verdict: $pf"; fi
+done
 echo "mutants: $ok as expected, $bad unexpected"
 [ $bad -eq 0 ]
